@@ -695,3 +695,16 @@ reg(Prop("C20", "Each training position is processed exactly once per tuning epo
                       "refill buffer at least as long as the longest line (backingBytes = 32 MiB in production)",
                       "1 <= line count < 2^63 (Go int), positive batch constants"],
          design_ref="5/C20"))
+
+reg(Prop("C17", "Static evaluation is colour-symmetric and depends only on the position", "Properties/C17.v",
+         [StreamCfg("c17", 3000, 100000, judge="judge_c17",
+                    rule="positions from G1 play-outs / G2 sparse placements incl. promoted material / G4 mutations plus "
+                         "random placements of 51 special materials (bare kings, insufficient material and its neighbours, "
+                         "KNBvK both colours, sole passers, promoted material); every case = previous evaluation + position + "
+                         "mirror image + 12 variants differing only in castling rights / ep / fullmove number / hash history, "
+                         "all evaluated on one reused board object; non-trivial = more than the two kings on the board; "
+                         "distinct by FEN")],
+         trusted=["hooks eval/export_verif.go (VerifSigm, VerifSideOfBoard, VerifInsufficientMat), board/export_verif.go (snapshot/restore)",
+                  "sliding and leaper attacks are the geometric definitions of Spec/Geometry.v (tied to the engine's magic tables by C12 and, end to end, by this stream)"],
+         assumptions=["board words < 2^64, exactly one king per side, knights and bishops belong to a colour (fragment of the representation invariant; part of `valid`)"],
+         design_ref="5/C17"))
